@@ -20,10 +20,14 @@
 #include <stdlib.h>
 #include <string.h>
 
-typedef struct {
+typedef struct iterator_t {
 	sqfs_dir_iterator_t base;
 
 	sqfs_dir_reader_state_t state;
+
+	/* the directories we descended through, to detect loops */
+	struct iterator_t *parent;
+	sqfs_u32 dir_inode_num;
 
 	sqfs_u32 xattr_idx;
 	sqfs_inode_generic_t *inode;
@@ -103,6 +107,7 @@ static int it_read_link(sqfs_dir_iterator_t *base, char **out)
 static int it_open_subdir(sqfs_dir_iterator_t *base, sqfs_dir_iterator_t **out)
 {
 	iterator_t *it = (iterator_t *)base;
+	int ret;
 
 	*out = NULL;
 
@@ -114,8 +119,18 @@ static int it_open_subdir(sqfs_dir_iterator_t *base, sqfs_dir_iterator_t **out)
 		return SQFS_ERROR_NOT_DIR;
 	}
 
-	return sqfs_dir_iterator_create(it->rd, it->id, it->data, it->xattr,
-					it->inode, out);
+	/* a directory that is its own ancestor would never end */
+	for (const iterator_t *p = it; p != NULL; p = p->parent) {
+		if (p->dir_inode_num == it->inode->base.inode_number)
+			return SQFS_ERROR_LINK_LOOP;
+	}
+
+	ret = sqfs_dir_iterator_create(it->rd, it->id, it->data, it->xattr,
+				       it->inode, out);
+	if (ret == 0)
+		((iterator_t *)*out)->parent = sqfs_grab(it);
+
+	return ret;
 }
 
 static void it_ignore_subdir(sqfs_dir_iterator_t *it)
@@ -166,6 +181,7 @@ static void it_destroy(sqfs_object_t *obj)
 	sqfs_drop(it->rd);
 	sqfs_drop(it->data);
 	sqfs_drop(it->xattr);
+	sqfs_drop(it->parent);
 	sqfs_free(it);
 }
 
@@ -203,6 +219,7 @@ int sqfs_dir_iterator_create(sqfs_dir_reader_t *rd,
 
 	it->id = sqfs_grab(id);
 	it->rd = sqfs_grab(rd);
+	it->dir_inode_num = inode->base.inode_number;
 
 	if (data != NULL)
 		it->data = sqfs_grab(data);
